@@ -855,6 +855,8 @@ C12_main(const char *tier, const char *replay)
     const int   *nd       = thorough ? ndds_t : ndds_q;
     int          nnd      = thorough ? 5 : 2;
     int          dmax     = thorough ? 7 : 4;
+    /* the bulk cases first: the deepening search below may use up the whole time allowance */
+    mc_foreach(6, bulk_case, NULL, 1, 300);
     for (int depth = thorough ? 3 : dmax; depth <= dmax; depth++) {
         char label[64];
         snprintf(label, sizeof label, "depth %d", depth);
@@ -879,6 +881,5 @@ C12_main(const char *tier, const char *replay)
         if (mc_deadline_hit())
             break;
     }
-    mc_foreach(6, bulk_case, NULL, 1, 300);
     return 0;
 }
